@@ -1,7 +1,7 @@
 """Stub of xdsl.dialects.builtin (types and attributes as plain records)."""
 from xdsl.ir import Attribute, Data, Operation, ParametrizedAttribute, SSAValue, TypeAttribute
 
-DYNAMIC_INDEX = -1
+DYNAMIC_INDEX = -9223372036854775808  # xdsl 0.70: MLIR kDynamic (int64 min)
 
 
 class IntAttr(Data):
@@ -212,6 +212,14 @@ class TensorType(TypeAttribute, ShapedType, ContainerType):
 class UnrealizedConversionCastOp(Operation):
     def __init__(self, operands=(), result_types=()):
         self._init_op(operands, [None for _ in result_types], list(result_types))
+
+    @property
+    def outputs(self):
+        return self.results
+
+    @property
+    def inputs(self):
+        return self.operands
 
     @staticmethod
     def get(inputs, result_types):
